@@ -29,7 +29,7 @@ ASSUMPTIONS = ['numerical-library thread counts fixed at 1 (OMP/OPENBLAS/MKL_NUM
                'one machine, one BLAS build: cross-platform reproducibility is out of reach',
                'crashes of run() are left to C08']
 BUDGET = {'quick': 0, 'thorough': 0}
-CORPUS = 'pipeline'
+CORPUS = ['pipeline', 'rng_sensitive']
 
 
 def from_corpus(case):
